@@ -399,6 +399,7 @@ class IENAQ(IENA):
         """
 
         super(IENAQ, self).unpack(buf)
+        self.parameters = []
         remaining_payload = self.payload
 
         while len(remaining_payload) > 0:
